@@ -32,7 +32,7 @@ def build():
                 return None, {"ok": False, "log": out, "errors": [{"file": "driver", "decl": None, "msg": out[-800:]}]}
         return binp, b
 
-def run_model(binp, lines, timeout=600):
+def run_model(binp, lines, timeout=240):
     """-> dict id -> list of trace lines"""
     res = {}
     if not lines:
